@@ -1,8 +1,8 @@
 (* C18 — Line protocol is segmentation-invariant; IRC messages are exactly one line.
-   Only statements here; proofs live in Proofs/LineP.v, Proofs/IrcP.v and
+   Only statements here; proofs live in Proofs/LineP.v, Proofs/LineTotalP.v, Proofs/IrcP.v and
    Proofs/IrcRoundP.v. *)
 From Coq Require Import List NArith.
-From Circ Require Import Model.Line Model.Irc Proofs.LineP Proofs.IrcP Proofs.IrcRoundP.
+From Circ Require Import Model.Line Model.Irc Proofs.LineP Proofs.LineTotalP Proofs.IrcP Proofs.IrcRoundP.
 Import ListNotations.
 Open Scope N_scope.
 
@@ -24,6 +24,29 @@ Theorem C18_lines_exact : forall ls tail chunks, wf_lines ls -> noLF tail ->
   concat chunks = join_lines ls tail -> run [] chunks = (map fst ls, tail).
 Proof. exact lines_exact. Qed.
 Print Assumptions C18_lines_exact.
+
+(* the independent description is total and unambiguous: every stream has
+   exactly one well-formed description, so C18_lines_exact speaks about every
+   stream ... *)
+Theorem C18_stream_decomposes : forall s : list N,
+  exists ls tail, wf_lines ls /\ noLF tail /\ s = join_lines ls tail.
+Proof. exact stream_decomposes. Qed.
+Print Assumptions C18_stream_decomposes.
+
+Theorem C18_decomposition_unique : forall ls1 t1 ls2 t2,
+  wf_lines ls1 -> noLF t1 -> wf_lines ls2 -> noLF t2 ->
+  join_lines ls1 t1 = join_lines ls2 t2 -> map fst ls1 = map fst ls2 /\ t1 = t2.
+Proof. exact decomposition_unique. Qed.
+Print Assumptions C18_decomposition_unique.
+
+(* ... and conservation: for every cut of every stream, the emitted lines, each
+   followed by the terminator it had, followed by the held tail, are exactly
+   the bytes received (no byte lost, invented or reordered) *)
+Theorem C18_lines_conserve : forall chunks : list (list N),
+  exists ls tail, wf_lines ls /\ noLF tail /\
+    run [] chunks = (map fst ls, tail) /\ concat chunks = join_lines ls tail.
+Proof. exact lines_conserve. Qed.
+Print Assumptions C18_lines_conserve.
 
 (* server mode: the lines and held tail of socket k depend only on k's reads *)
 Theorem C18_isolation : forall k evs,
